@@ -342,3 +342,8 @@ def cbf_key_of(packet):
     """(source GN address, sequence number) of a received GBC packet (extended header first): the key of its CBF entry"""
     h = GBCExtendedHeader.decode(packet[0:44])
     return (h.so_pv.gn_addr, h.sn)
+
+
+def signed_message_of_call():
+    """the secured message the sign service returned for the (single) signing request of this call"""
+    return ghost('sign_calls')[0][2]
